@@ -341,6 +341,12 @@ def case_site(seed):
             continue
         if "summary" in {k.lower() for k in emeta} and not own_page:
             continue  # an explicit summary is what is shown for an entity without a page of its own
+        if not all_shown:
+            # default display: what belongs to a private (not displayed) entity may still be summarised elsewhere (inherited bindings and
+            # components shown with a public extension) while the page that would hold the full text is not generated
+            parts = path.split("/")
+            if any(expected.get("/".join(parts[:k]), {}).get("permission") == "private" for k in range(2, len(parts))):
+                continue
         if not on:
             if all_shown and kind not in SITE_MAY_BE_ABSENT:
                 viol.append({"kf": {"kind": "documentation_rendered_nowhere", "entity": kind, "display_all": all_shown}, "w": {"path": path, "expected": ebody, "seed": seed, "files": texts, "case": "site"}})
